@@ -152,9 +152,8 @@ public:
     {
         if (ptr_ == other.ptr_)
             return *this;
-        inc_reference(other.ptr_);
-        dec_reference();
-        ptr_ = other.ptr_;
+        // release the old object last: it may own the handle \p other.
+        CountingPtr(other).swap(*this);
         return *this;
     }
 
@@ -167,9 +166,8 @@ public:
     {
         if (ptr_ == other.ptr_)
             return *this;
-        inc_reference(other.ptr_);
-        dec_reference();
-        ptr_ = other.ptr_;
+        // release the old object last: it may own the handle \p other.
+        CountingPtr(other).swap(*this);
         return *this;
     }
 
@@ -178,9 +176,8 @@ public:
     {
         if (ptr_ == other.ptr_)
             return *this;
-        dec_reference();
-        ptr_ = other.ptr_;
-        other.ptr_ = nullptr;
+        // release the old object last: it may own the handle \p other.
+        CountingPtr(std::move(other)).swap(*this);
         return *this;
     }
 
@@ -192,9 +189,8 @@ public:
     {
         if (ptr_ == other.ptr_)
             return *this;
-        dec_reference();
-        ptr_ = other.ptr_;
-        other.ptr_ = nullptr;
+        // release the old object last: it may own the handle \p other.
+        CountingPtr(std::move(other)).swap(*this);
         return *this;
     }
 
